@@ -398,6 +398,8 @@ impl ChunkFooter {
     #[inline]
     fn set_ptr(&self, ptr: NonNull<u8>) {
         if self.ptr.get() != ptr {
+            #[cfg(bumpalo_verif)]
+            crate::__verif::footer_store(self as *const ChunkFooter as usize, crate::__verif::SITE_SET_PTR);
             self.ptr.set(ptr);
         }
     }
@@ -1257,8 +1259,6 @@ impl<const MIN_ALIGN: usize> Bump<MIN_ALIGN> {
                         // to its original value upon entry to this method
                         // (reclaiming any alignment padding we may have
                         // added).
-                        #[cfg(bumpalo_verif)]
-                        crate::__verif::footer_store(current_footer_p.as_ptr() as usize, crate::__verif::SITE_REWIND_SAME);
                         current_footer_p.as_ref().set_ptr(rewind_ptr);
                     } else {
                         // We allocated a new chunk for this result.
@@ -1370,8 +1370,6 @@ impl<const MIN_ALIGN: usize> Bump<MIN_ALIGN> {
                         // to its original value upon entry to this method
                         // (reclaiming any alignment padding we may have
                         // added).
-                        #[cfg(bumpalo_verif)]
-                        crate::__verif::footer_store(current_footer_p.as_ptr() as usize, crate::__verif::SITE_REWIND_SAME);
                         current_footer_p.as_ref().set_ptr(rewind_ptr);
                     } else {
                         // We allocated a new chunk for this result.
@@ -2015,8 +2013,6 @@ impl<const MIN_ALIGN: usize> Bump<MIN_ALIGN> {
             debug_assert!(!aligned_ptr.is_null());
             let aligned_ptr = NonNull::new_unchecked(aligned_ptr);
 
-            #[cfg(bumpalo_verif)]
-            crate::__verif::footer_store(footer_ptr.as_ptr() as usize, crate::__verif::SITE_FAST);
             footer.set_ptr(aligned_ptr);
             Some(aligned_ptr)
         }
@@ -2280,8 +2276,6 @@ impl<const MIN_ALIGN: usize> Bump<MIN_ALIGN> {
                 "bump pointer {ptr:#p} should be aligned to the minimum alignment of {MIN_ALIGN:#x}"
             );
             let ptr = NonNull::new_unchecked(ptr);
-            #[cfg(bumpalo_verif)]
-            crate::__verif::footer_store(self.current_chunk_footer.get().as_ptr() as usize, crate::__verif::SITE_DEALLOC);
             self.current_chunk_footer.get().as_ref().set_ptr(ptr);
         }
     }
@@ -2368,8 +2362,6 @@ impl<const MIN_ALIGN: usize> Bump<MIN_ALIGN> {
                 is_pointer_aligned_to(new_ptr.as_ptr(), MIN_ALIGN),
                 "bump pointer {new_ptr:#p} should be aligned to the minimum alignment of {MIN_ALIGN:#x}"
             );
-            #[cfg(bumpalo_verif)]
-            crate::__verif::footer_store(footer as *const ChunkFooter as usize, crate::__verif::SITE_SHRINK);
             footer.set_ptr(new_ptr);
 
             // NB: we know it is non-overlapping because of the size check
